@@ -219,6 +219,25 @@ Theorem C08_block_is_reference_reading :
 Proof. exact C08Facts.one_block_is_apply_block. Qed.
 Print Assumptions C08_block_is_reference_reading.
 
+(* end to end: the whole UMN listing of the repaired handler is the sorted reference
+   reading — directory entries from prep_entries, the blocks of all link files in the
+   order they were read, files dropped by their .cap file as the initial hidden set.
+   Hypotheses: every child is reported under its own selector base/name, and no .cap
+   file moves an entry to another selector (no Path= line in .cap files). *)
+Theorem C08_listing_is_reference_reading :
+  forall plf fx alts mode w,
+    fx_dash_hides fx = true -> fx_remove_safe fx = true -> fx_hidden_stays fx = true ->
+    (forall n ci, child_entry w n = Ok ci -> e_selector (ci_entry ci) = child_sel w n) ->
+    (forall n e, umn_child plf mode w n = Ok (Some e) -> e_selector e = child_sel w n) ->
+  forall enum l, NoDup enum -> umn_listing_gen plf fx alts mode w enum = Ok l ->
+    exists files links fes,
+      umn_scan plf fx alts w (enum_order fx enum) [] [] = Ok (files, links) /\
+      prep_entries (fx_skip_child fx) (umn_child plf mode w) (sort_names files) = Ok fes /\
+      l = isort oentry_leb
+            (apply_entries_from (cap_dropped plf mode w (sort_names files)) links (tag_origin fes)).
+Proof. exact C08Facts.listing_is_reference_reading. Qed.
+Print Assumptions C08_listing_is_reference_reading.
+
 Example C08_example_blocks :
   wf_linkfile [fred_hidden; fred_titled; a_titled; cool] = true /\
   map (fun oe => (fst oe, e_name (snd oe), e_num (snd oe)))
